@@ -127,6 +127,33 @@ def explore(chk, codes, obj_codes, tag):
             chk.violation("%s predicate %d differs from the numeric family" % (layer, k), inp, f["spec"], impl)
 
 
+def threads_part(chk, rng, n):
+    """the predicates are functions of the code: answers classified by several threads at once (one receive worker per
+    connection does exactly that) must get what they get alone - every interleaving at source-line granularity"""
+    import importlib
+    import threadsafe
+    import bromelia.utils as U
+    from bromelia.base import DiameterAnswer
+    from bromelia.avps import ResultCodeAVP
+
+    def answer(code):
+        a = DiameterAnswer(command_code=257)
+        a.append(ResultCodeAVP(code.to_bytes(4, "big")))
+        return a
+
+    def make_threads(r):
+        codes = [r.choice([1001, 2001, 2002, 3004, 4001, 5012, 5001, 5999, 1999, 6001, 2 ** 32 - 1]) for _ in range(r.choice([2, 2, 3]))]
+        threads = []
+        for c in codes:
+            a = answer(c)
+            one = (lambda a=a, c=c: (tuple(call(getattr(U, n), a) for n in OBJ_PREDS), tuple(call(getattr(U, n), c) for n in INT_PREDS)))
+            threads.append([one] * r.choice([1, 2]))
+        return threads, {"codes": codes}
+
+    threadsafe.explore(chk, "result-code predicates", make_threads, lambda: importlib.reload(U),
+                       ("bromelia/utils.py", "bromelia/_internal_utils.py"), rng, n)
+
+
 def run(chk):
     rng = random.Random(chk.seed)
     changed, notes, funs = gen_pyfuns.generate()
@@ -151,6 +178,7 @@ def run(chk):
     explore(chk, list(range(exhaustive_hi)) + bnd + rnd, list(obj_ex) + bnd + rnd[: n_rand // 10], "sweep")
     chk.extra["exhaustive"] = True
     chk.extra["exhaustive_domain"] = "codes 0..65535 x 5 predicates x 2 layers"
+    threads_part(chk, rng, 40 if chk.tier == "quick" else 3000)
 
     def search():
         more = [rng.randrange(2 ** 32) for _ in range(4 * n_rand)]
